@@ -1,5 +1,4 @@
 CONSTANT Tier = "thorough"
 INIT Init
 NEXT Next
-INVARIANT Theorems
 INVARIANT Emit
